@@ -616,6 +616,36 @@ func c17BackendHostilities(rng *rand.Rand) []backendHostility {
 		j := junk
 		hs = append(hs, raw("reply/random-bytes", func(a *fakecass.Arrival) []byte { return j }, rng.Intn(2)*2))
 	}
+	// replies on an lz4 session whose compressed ERROR body ends before / at / past the announced decompressed length
+	// (the proxy has to decompress error frames to see whether they are UNPREPARED)
+	for _, lits := range []int{1, 4} {
+		for _, mlen := range []int{4, 19} {
+			for _, over := range []int{-1, 0, 1, 2, 3, 4, 8} {
+				lits, mlen, over := lits, mlen, over
+				announced := lits + mlen - over
+				if announced < 1 {
+					continue
+				}
+				hs = append(hs, raw(fmt.Sprintf("reply/lz4-error-body-last-match-ends-%+d-from-announced-length/lits=%d/match=%d", over, lits, mlen), func(a *fakecass.Arrival) []byte {
+					ml := mlen - 4
+					tok := byte(lits << 4)
+					if ml >= 15 {
+						tok |= 15
+					} else {
+						tok |= byte(ml)
+					}
+					blk := []byte{tok}
+					blk = append(blk, []byte{0, 0, 0x25, 0, 0, 0}[:lits]...)
+					blk = append(blk, 1, 0)
+					if ml >= 15 {
+						blk = append(blk, byte(ml-15))
+					}
+					body := []byte{byte(announced >> 24), byte(announced >> 16), byte(announced >> 8), byte(announced)}
+					return respFrame(a.Header.Version, 1, a.Stream, 0, append(body, blk...))
+				}, 0))
+			}
+		}
+	}
 	return hs
 }
 
@@ -891,7 +921,11 @@ func runC17(c *Ctx) {
 						c.Step("c17 backend hostility maxv=%s %s", maxv, h.Kind)
 						cur.Store(h)
 						cl, err := rawcql.Dial(p.addr, primitive.ProtocolVersion4, nil)
-						if err == nil && cl.Handshake("", 5*time.Second) == nil {
+						hcomp := ""
+						if strings.HasPrefix(h.Kind, "reply/lz4-") {
+							hcomp = "lz4"
+						}
+						if err == nil && cl.Handshake(hcomp, 5*time.Second) == nil {
 							for k := 0; k < 3; k++ { // hit both hosts
 								f := BuildRequest(primitive.ProtocolVersion4, int16(k+1), []ReqKind{KQuery, KExecute, KBatch}[k%3], true, fmt.Sprintf("T0000000bad%06d", rng.Intn(999999)), primitive.ConsistencyLevelOne)
 								_, _ = cl.CallF(f, 300*time.Millisecond)
